@@ -9,7 +9,9 @@ from cfg import CFG
 from expr import ExprBuilder, show, walk
 from facts import Operand, Place
 
-SORT_CALLEES = re.compile(r'::(sort_by|sort_unstable_by|sort_by_cached_key|max_by|min_by|is_sorted_by|dedup_by|partition_point|select_nth_unstable_by)$')
+SORT_CALLEES = re.compile(r'::(sort_by|sort_unstable_by|max_by|min_by|is_sorted_by|dedup_by|partition_point|select_nth_unstable_by)$')
+# these take a one-argument *key* function: the order is the Ord of the key type, total by construction
+KEY_CALLEES = re.compile(r'::(sort_by_key|sort_by_cached_key|sort_unstable_by_key|max_by_key|min_by_key|is_sorted_by_key|binary_search_by_key)$')
 BSEARCH = re.compile(r'::(binary_search_by)$')
 CMP_CALLS = ('std::cmp::Ord::cmp', 'std::cmp::PartialOrd::partial_cmp')
 COMBINATORS = ('std::cmp::Ordering::then', 'std::cmp::Ordering::then_with', 'std::cmp::Ordering::reverse',
@@ -26,6 +28,14 @@ def find_comparators(F, where=None):
             path = t.callee.path
             m2 = SORT_CALLEES.search(path)
             m1 = BSEARCH.search(path)
+            m3 = KEY_CALLEES.search(path)
+            if m3:
+                for a in t.args:
+                    if '{closure@' in (a.ty or ''):
+                        cl = closure_path_of(F, b, a)
+                        if cl is not None:
+                            out.append(('key', cl, (b, path, b.loc(t.sp))))
+                continue
             if not (m1 or m2):
                 continue
             # closure argument: an operand whose type is a closure
@@ -64,6 +74,11 @@ def closure_path_of(F, body, operand):
 
 def classify(body, kind):
     """returns (ok, detail)"""
+    if kind == 'key':
+        rt = body.ret_type()
+        if re.search(r'\b(f32|f64)\b', rt):
+            return False, 'key function returning %s (no total order)' % rt
+        return True, 'key function (one argument) returning %s: ordered by the Ord of the key' % rt
     cfg = CFG(body)
     E = ExprBuilder(cfg)
     # argument names
